@@ -26,9 +26,15 @@ func (l *vpScanLogger) emit(format string, args []interface{}) {
 		l.scan(a)
 	}
 }
-func (l *vpScanLogger) Infof(ctx context.Context, format string, args ...interface{})  { l.emit(format, args) }
-func (l *vpScanLogger) Errorf(ctx context.Context, format string, args ...interface{}) { l.emit(format, args) }
-func (l *vpScanLogger) Debugf(ctx context.Context, format string, args ...interface{}) { l.emit(format, args) }
+func (l *vpScanLogger) Infof(ctx context.Context, format string, args ...interface{}) {
+	l.emit(format, args)
+}
+func (l *vpScanLogger) Errorf(ctx context.Context, format string, args ...interface{}) {
+	l.emit(format, args)
+}
+func (l *vpScanLogger) Debugf(ctx context.Context, format string, args ...interface{}) {
+	l.emit(format, args)
+}
 func (l *vpScanLogger) Record(ctx context.Context, r map[string]string, obscure ...string) {
 	l.calls++
 	for k, v := range r {
